@@ -25,6 +25,7 @@ class World:
         self.probes: Dict[str, Dict] = {}
         self.knobs: Dict[str, Any] = {}
         self.sessions: List[Dict[str, Any]] = []
+        self.nolog = False
 
     # ---------------------------------------------------------------- markets
     def add_market(self, name: str, tick: float, p0: float, vol: float = 0.0, drift: float = 0.0,
@@ -92,6 +93,8 @@ class World:
         scn = {"format": 1, "driver": "A", "runner_seed": self.r.randrange(2 ** 31), "config": self.cfg,
                "scripts": self.scripts, "probes": self.probes, "knobs": self.knobs}
         scn.update(getattr(self, "extra", {}) or {})
+        if self.nolog:
+            scn["logger"] = False
         names = self.cfg["simulation"]["markets"]
         for m in self.markets:
             if m["index"] and any(names.index(c) > names.index(m["name"]) for c in m["components"]):
@@ -119,6 +122,8 @@ def gen_order_op(r: random.Random, w: World, acc: List[str], p_market: float, p_
               "vol": r.randint(50, 100) if bigvol and r.random() < 0.3 else r.randint(1, 5)}
     if r.random() < p_ttl:
         op["ttl"] = r.choice(ttls)
+    if r.random() < 0.04:
+        op["typ"] = r.choice(["np", "fl"])
     return op
 
 
@@ -129,6 +134,9 @@ def gen_turn(r: random.Random, w: World, acc: List[str], p_empty: float, p_cance
     ops = []
     for _ in range(r.randint(1, max_ops)):
         if r.random() < p_cancel:
+            if r.random() < 0.08:
+                ops.append({"k": "recancel", "m": r.randrange(len(acc)), "nth": r.randrange(6)})
+                continue
             ops.append({"k": "cancel", "m": r.randrange(len(acc)),
                         "ref": r.choice(["live", "live", "live", "filled", "expired", "cancelled", "any"]),
                         "nth": r.randrange(12)})
@@ -307,6 +315,8 @@ def gen_world(r: random.Random, profile: str) -> Dict[str, Any]:
         else:
             del w.cfg[w.cfg[idx["name"]]["markets"][-1]]["outstandingShares"]
             w.extra = {"expect_setup_error": {"kind": "component_without_shares", "types": ["AssertionError", "ValueError"], "property": "C17"}}
+    if P == "ledger" and r.random() < 0.2:
+        w.nolog = True  # a runner without a logger
     p_empty = 0.5 if P == "sessions" else r.choice([0.2, 0.4, 0.6])
     fill_scripts(r, w, p_empty=p_empty, p_cancel=r.choice([0.1, 0.2, 0.3]),
                  p_market=r.choice([0.0, 0.05, 0.15]), p_ttl=r.choice([0.0, 0.4, 0.8]),
